@@ -55,3 +55,8 @@ cls("RustIter", can_iterate="bool", nenter="int", nexit="int")
 cls("RustGenerator", _rust_iter="optref:RustIter", _dataset="ref:DatasetIteration", _split="U",
     _process_record="optfunc", _shards="opt:int", _shard_filter="optfunc", _repeat="bool",
     _file_parallelism="int", _shuffle="int", _to_dict="func")
+
+# file / hash objects of the IO model
+cls("FileObj", path="U", content="U", pos="int", writing="bool")
+cls("MemView", size="int", src="U", off="int", n="int")
+cls("HashObj", alg="U", fed_len="int", fed_src="U", fed_good="bool")
